@@ -70,12 +70,12 @@ Atoms(cli, dst, dim, m) == {<<cli, dst, dim, b>> : b \in BitsOf[m]}
 (* Tier 1: the answers of the store *)
 \* destinations bound for (dim, any state of m) and the client (every client when negative), in the
 \* order of the destinations, one occurrence per client that is bound
-LookupBag(b, dim, m, cli) ==
-  LET ds == SetToSortSeq({a[2] : a \in b}, LexLess)
-      cnt(d) == Cardinality({c \in {a[1] : a \in b} :
-                                /\ (cli < 0 \/ c = cli)
-                                /\ \E s \in BitsOf[m] : <<c, d, dim, s>> \in b})
+LookupBagOf(b, ds, cs, dim, m, cli) ==    \* ds: the bound destinations in order, cs: the bound clients
+  LET cnt(d) == Cardinality({c \in cs : /\ (cli < 0 \/ c = cli)
+                                        /\ \E s \in BitsOf[m] : <<c, d, dim, s>> \in b})
   IN FlattenSeq([k \in 1..Len(ds) |-> Rep(ds[k], cnt(ds[k]))])
+LookupBag(b, dim, m, cli) ==
+  LookupBagOf(b, SetToSortSeq({a[2] : a \in b}, LexLess), {a[1] : a \in b}, dim, m, cli)
 
 NLook == Len(DimSeq) * Len(MaskSeq) * Len(CliW)
 LookKey(i) ==
@@ -84,7 +84,11 @@ LookKey(i) ==
       mi == (n \div Len(CliW)) % Len(MaskSeq)
       di == n \div (Len(CliW) * Len(MaskSeq))
   IN <<DimSeq[di + 1], MaskSeq[mi + 1], CliW[ci + 1]>>
-AllLookups(b) == IF ~WithAll THEN <<>> ELSE [i \in 1..NLook |-> LET k == LookKey(i) IN LookupBag(b, k[1], k[2], k[3])]
+AllLookups(b) ==
+  IF ~WithAll THEN <<>>
+  ELSE LET ds == SetToSortSeq({a[2] : a \in b}, LexLess)
+           cs == {a[1] : a \in b}
+       IN [i \in 1..NLook |-> LET k == LookKey(i) IN LookupBagOf(b, ds, cs, k[1], k[2], k[3])]
 
 \* (mpt++) the cycle registered for each path of the universe: -1 = not registered
 CycAnswers(cm) == [i \in 1..Len(PathSeq) |-> IF PathSeq[i] \in DOMAIN cm THEN cm[PathSeq[i]] ELSE -1]
@@ -426,7 +430,7 @@ OneEntryPerKey ==
   /\ \A i, j \in 1..Len(tab) : i # j => ~(tab[i].cli = tab[j].cli /\ tab[i].dst = tab[j].dst)
   /\ \A i \in 1..Len(tab) : tab[i].st # 0
 \* a destination of a client is fed by one source dimension
-OneDimPerDest == \A a, b \in bound : (a[1] = b[1] /\ a[2] = b[2]) => a[3] = b[3]
+OneDimPerDest == Cardinality({<<a[1], a[2], a[3]>> : a \in bound}) = Cardinality({<<a[1], a[2]>> : a \in bound})
 \* every lookup of the universe answered from the array is the lookup of the map
 LookupRefines ==
   \A i \in 1..NLook :
